@@ -278,8 +278,10 @@ def cases(tier, seed):
                     items.append({'host': host, 'tree': t, 'parens': pm, 'style': 0 if pm == 'min' else 2,
                                   'lseed': len(items)})
     for host in HOSTS:
-        for b in _batches((x for x in items if x['host'] == host), BATCH):
+        for bi, b in enumerate(_batches((x for x in items if x['host'] == host), BATCH)):
             yield {'kind': 'value', 'host': host, 'items': b}
+            if host == 'text' and bi % 2 == 0:
+                yield {'kind': 'value', 'host': host, 'items': b, 'via': ('run', 'run-seq')[(bi // 2) % 2]}
     # ---- core: laziness with probe primitives (text and file hosts) -----------------------------------
     lz = []
     for host in ('text', 'file'):
@@ -323,7 +325,8 @@ def cases(tier, seed):
             b.append({'host': host, 'tree': _rand_tree(rng, rng.choice((2, 3, 4)), rng.choice((2, 3, 4))),
                       'parens': rng.choice(('min', 'rand', 'rand', 'full')), 'style': rng.choice((0, 1, 2, 2)),
                       'lseed': rng.randrange(10 ** 6)})
-        yield {'kind': 'value', 'host': host, 'items': b}
+        yield {'kind': 'value', 'host': host, 'items': b,
+               'via': rng.choice((None, 'run', 'run-seq')) if host == 'text' else None}
     n_lazy = 1200 if tier == 'quick' else 10000
     for _ in range(n_lazy):
         host = rng.choice(('text', 'file'))
@@ -340,7 +343,7 @@ def cases(tier, seed):
 
 
 # ============================================================================================ execution
-def _instr(host, expr, positive, out_name=None):
+def _instr(host, expr, positive, out_name=None, via=None):
     """the instruction that hosts the expression (expression wrapped in parentheses: the host argument may be
     restricted to a simple expression; precedence INSIDE the parentheses is what is tested)"""
     e = '( ' + expr + ' )'
@@ -349,6 +352,11 @@ def _instr(host, expr, positive, out_name=None):
     if host == 'integer':
         return 'exit-code ' + e
     if host == 'text':
+        if via == 'run':
+            # the model is the output of a program (a text that is cached the first time an operand reads it)
+            return 'contents t.txt : -transformed-by run % cat\n ' + e
+        if via == 'run-seq':
+            return 'contents t.txt : -transformed-by ( run % cat\n | identity ) ' + e
         return 'contents t.txt : ' + e
     if host == 'file':
         return 'exists f.txt : ' + e
@@ -413,7 +421,7 @@ def run_value(case, ctx):
                                  'detail': {'tree': it['tree'], 'rendered': rendered[i]}})
                 classes.append(('line', shape(it['tree']), it['parens'], it['style']))
     else:
-        asserts = [_instr(host, s, ev(it['tree'])) for s, it in zip(rendered, case['items'])]
+        asserts = [_instr(host, s, ev(it['tree']), via=case.get('via')) for s, it in zip(rendered, case['items'])]
         r, text = _run(ses, d, [], asserts)
         if r.timed_out:
             inconc.append('watchdog')
